@@ -765,6 +765,7 @@ func (c *Ctx) indexPredCalls() {
 		info *types.Info
 		ret  ast.Expr
 		objs []types.Object // receiver (or nil) followed by parameters
+		locals map[types.Object]ast.Expr
 	}
 	helpers := map[*types.Func]*helper{}
 	for _, p := range c.Pkgs {
@@ -772,10 +773,30 @@ func (c *Ctx) indexPredCalls() {
 		for _, file := range p.Syntax {
 			for _, d := range file.Decls {
 				fd, ok := d.(*ast.FuncDecl)
-				if !ok || fd.Body == nil || len(fd.Body.List) != 1 || fd.Type.Results == nil || len(fd.Type.Results.List) != 1 {
+				if !ok || fd.Body == nil || len(fd.Body.List) == 0 || len(fd.Body.List) > 4 || fd.Type.Results == nil || len(fd.Type.Results.List) != 1 {
 					continue
 				}
-				rs, ok := fd.Body.List[0].(*ast.ReturnStmt)
+				// `m := fmtraw.Meta(v); return m != nil && m.BracketType == '['`: locals defined
+				// once, in front of the single return, read as their definitions
+				locals := map[types.Object]ast.Expr{}
+				shape := true
+				for _, st := range fd.Body.List[:len(fd.Body.List)-1] {
+					as, isAs := st.(*ast.AssignStmt)
+					if !isAs || as.Tok != token.DEFINE || len(as.Lhs) != 1 || len(as.Rhs) != 1 {
+						shape = false
+						break
+					}
+					id, isId := as.Lhs[0].(*ast.Ident)
+					if !isId || info.Defs[id] == nil {
+						shape = false
+						break
+					}
+					locals[info.Defs[id]] = as.Rhs[0]
+				}
+				if !shape {
+					continue
+				}
+				rs, ok := fd.Body.List[len(fd.Body.List)-1].(*ast.ReturnStmt)
 				if !ok || len(rs.Results) != 1 {
 					continue
 				}
@@ -789,7 +810,7 @@ func (c *Ctx) indexPredCalls() {
 				if fn == nil {
 					continue
 				}
-				h := &helper{decl: fd, info: info, ret: rs.Results[0]}
+				h := &helper{decl: fd, info: info, ret: rs.Results[0], locals: locals}
 				var recv types.Object
 				if fd.Recv != nil && len(fd.Recv.List) == 1 && len(fd.Recv.List[0].Names) == 1 {
 					recv = info.Defs[fd.Recv.List[0].Names[0]]
@@ -873,6 +894,7 @@ func (c *Ctx) indexPredCalls() {
 			}
 		}
 		failed := false
+		nest := 0
 		var cp func(e ast.Expr) ast.Expr
 		reg := func(old, nw ast.Expr) ast.Expr {
 			if tv, ok := h.info.Types[old]; ok {
@@ -889,6 +911,12 @@ func (c *Ctx) indexPredCalls() {
 				if o := h.info.Uses[x]; o != nil {
 					if b, ok := bind[o]; ok {
 						return b
+					}
+					if d, isLocal := h.locals[o]; isLocal && nest < 6 {
+						nest++
+						r := cp(d)
+						nest--
+						return r
 					}
 					if v, isVar := o.(*types.Var); isVar && !v.IsField() && v.Pkg() != nil && v.Parent() != v.Pkg().Scope() {
 						failed = true // a local that is not a parameter
@@ -1078,4 +1106,100 @@ func (c *Ctx) callsWithinHelpers(u FuncUnit, target *types.Func, depth int) bool
 		}
 	}
 	return false
+}
+
+// quoteOperandSite: at block b, e is the operand of a quote node —
+//
+//	X.Cells[0] on a path that established X.Type == LQuote, or
+//	a local stepped by `for L.Type == LQuote { …; L = L.Cells[0] }` (whatever it started as:
+//	when the loop is not entered the local is still the value it started as, and the site
+//	is then judged as a site on that value by the other obligations of the function's callers).
+func (c *Ctx) quoteOperandSite(fc *FCFG, b *cfg.Block, e ast.Expr) bool {
+	info := fc.Info
+	lq := c.LookupConst("lisp.LQuote")
+	typeFld := c.LookupField("lisp.LVal.Type")
+	if lq == nil || typeFld == nil || info == nil {
+		return false
+	}
+	isQuoteTest := func(x ast.Expr, of types.Object) (bool, bool) {
+		be, ok := ast.Unparen(x).(*ast.BinaryExpr)
+		if !ok || (be.Op != token.EQL && be.Op != token.NEQ) {
+			return false, false
+		}
+		l, r := be.X, be.Y
+		if identObjOrSel(info, l) == lq {
+			l, r = r, l
+		}
+		se, ok := ast.Unparen(l).(*ast.SelectorExpr)
+		if !ok || FieldOfSelector(info, se) != typeFld || identObj(info, se.X) != of || identObjOrSel(info, r) != lq {
+			return false, false
+		}
+		return true, be.Op == token.NEQ
+	}
+	cellsZero := func(x ast.Expr) types.Object {
+		ie, ok := ast.Unparen(x).(*ast.IndexExpr)
+		if !ok {
+			return nil
+		}
+		if k, ok := intConst(info, ie.Index); !ok || k != 0 {
+			return nil
+		}
+		se, ok := ast.Unparen(ie.X).(*ast.SelectorExpr)
+		if !ok || se.Sel.Name != "Cells" {
+			return nil
+		}
+		return identObj(info, se.X)
+	}
+	// form A
+	if x := cellsZero(e); x != nil {
+		cut := fc.edgesEntailing(func(a ast.Expr) (string, bool) {
+			if is, neg := isQuoteTest(a, x); is {
+				return "isQuote", neg
+			}
+			return "", false
+		}, func(v map[string]bool) bool { return v["$has:isQuote"] && v["isQuote"] })
+		return len(cut) > 0 && !fc.reachableAvoiding(b, cut)
+	}
+	// form B
+	l := identObj(info, e)
+	if l == nil || fc.Body == nil {
+		return false
+	}
+	stepped := false
+	ok := true
+	ast.Inspect(fc.Body, func(n ast.Node) bool {
+		fs, isFor := n.(*ast.ForStmt)
+		if isFor && fs.Init == nil && fs.Post == nil && fs.Cond != nil {
+			if is, neg := isQuoteTest(fs.Cond, l); is && !neg {
+				for _, st := range fs.Body.List {
+					if as, isAs := st.(*ast.AssignStmt); isAs && as.Tok == token.ASSIGN && len(as.Lhs) == 1 && len(as.Rhs) == 1 && identObj(info, as.Lhs[0]) == l && cellsZero(as.Rhs[0]) == l {
+						stepped = true
+					}
+				}
+			}
+		}
+		return true
+	})
+	if !stepped {
+		return false
+	}
+	// no other assignment to the local than its definition and the step
+	nother := 0
+	ast.Inspect(fc.Body, func(n ast.Node) bool {
+		if as, isAs := n.(*ast.AssignStmt); isAs {
+			for i, lh := range as.Lhs {
+				if identObj(info, lh) == l {
+					if as.Tok == token.DEFINE {
+						continue
+					}
+					if i < len(as.Rhs) && cellsZero(as.Rhs[i]) == l {
+						continue
+					}
+					nother++
+				}
+			}
+		}
+		return true
+	})
+	return ok && nother == 0
 }
